@@ -20,6 +20,13 @@
  *        destructor     : of a non-empty cell = the closure dies.  OBLIGATION the pool mutex is NOT held (a closure's destructor resumes a
  *                         coroutine with "cancelled" / drops a promise / runs destructors of captured user state, all of which may re-enter
  *                         the pool).  Counted separately as "destroyed un-run" (= cancelled) and "destroyed after its run".
+ *                         The destruction of a closure runs user code on the destroying thread exactly as its invocation does ("stop() and the
+ *                         destructor ... including when invoked from one of the pool's own threads" does not say from which part of the job):
+ *                         the captured state may hold the pool (the last std::shared_ptr owner is a capture of the finished job), so the
+ *                         DESTRUCTION of a closure may stop and even destroy the pool too - current-pool pointer null / pool dead afterwards
+ *                         (tp_user_code_may_stop_pool, shared with operator()).  From then on every use of the pool's mutex / queue / worker
+ *                         list / condition variable / exit flag is an error "used after the pool was destroyed" (tq_guard, tv_guard,
+ *                         notify / wait, tp_on_lock / tp_on_unlock = every lock() / unlock() of _mx, CV_PERM_TP_EXIT = every plain access of _exit).
  *     ONE arbitrary-but-fixed closure id gh_C is tracked exactly (where it is, how often it was invoked / destroyed); a statement proved for
  *     it holds for every closure.
  * (2) std::queue<function<void()>> as an abstract multiset with a length (C11 makes no ordering claim).  Two queue objects are known: the
@@ -53,7 +60,8 @@ struct tp_model {
   cv_i8 front_valid;              /* tq_cell currently stands for the head element                                          */
   cv_i8 pool_dead;                /* a job destroyed the pool: nothing of *gh_pool may be touched any more                   */
   cv_i8 rely_on;                  /* other threads act between critical sections                                             */
-  cv_i8 job_may_stop;             /* a running job may stop / destroy the pool                                               */
+  cv_i8 job_may_stop;             /* a running job (its body AND the destruction of its closure) may stop / destroy the pool */
+  cv_i8 stopped_in_dtor;          /* the pool was stopped / destroyed by the DESTRUCTION of a closure on this thread (for the reachability sentinels) */
   cv_i8 c_where; cv_i64 c_invoked, c_unrun, c_ran;            /* tracked closure: place, invocations, destroyed un-run / after run */
   cv_i64 n_push, n_deq, n_invoked, n_unrun, n_ran;            /* totals of this thread                                    */
   cv_i64 n_notify_one, n_notify_all, n_wait, n_cs;            /* notifications, waits, critical sections                  */
@@ -74,17 +82,25 @@ struct tv_rep { THR *b, *e, *c; };
 #define TV(v) ((struct tv_rep *)(v))
 #define TV_N(v) ((cv_i64)(TV(v)->e - TV(v)->b))
 /* everything a contract has to pin at entry (DFCC starts with nondeterministic statics) */
-#define TP_MODEL_ZERO (tm.lq_len == 0 && tm.lq_live == 0 && tm.front_valid == 0 && tm.pool_dead == 0 && tm.c_invoked == 0 && tm.c_unrun == 0 && tm.c_ran == 0 && \
+#define TP_MODEL_ZERO (tm.lq_len == 0 && tm.lq_live == 0 && tm.front_valid == 0 && tm.pool_dead == 0 && tm.stopped_in_dtor == 0 && tm.c_invoked == 0 && tm.c_unrun == 0 && tm.c_ran == 0 && \
    tm.n_push == 0 && tm.n_deq == 0 && tm.n_invoked == 0 && tm.n_unrun == 0 && tm.n_ran == 0 && tm.n_notify_one == 0 && tm.n_notify_all == 0 && tm.n_wait == 0 && tm.n_cs == 0 && \
    tt.n_join == 0 && tt.n_detach == 0 && tt.t_join == 0 && tt.t_detach == 0 && \
    gh_lock_depth == 0 && gh_lock_held == 0 && gh_n_lock == 0 && gh_n_unlock == 0 && gh_C != 0 && gh_C < (1ul << 32) && gh_me != 0 && tm.env_unjoined <= 1)
 /* pool invariant (holds whenever the mutex is free): the flag is a bool; a stopped pool has no queued closure and no worker in its list */
 /* the exit flag is read/written through its first byte: works for `bool _exit` and for a rewrite to std::atomic<bool> alike */
 #define TP_EXIT(p) (*(cv_i8 *)&(p)->_exit)
+/* permission instrumentation (units.py: perms 'cocls::thread_pool._exit'): emitted by ir2c before every plain load/store of the exit flag in the translated code */
+#ifndef CV_PERM_TP_EXIT
+#define CV_PERM_TP_EXIT(obj) __CPROVER_assert(!((void *)(obj) == (void *)gh_pool && tm.pool_dead), "thread_pool::_exit is used after the pool was destroyed")
+#endif
 #define TP_INV(p) (TP_EXIT(p) <= 1 && tm.q_len < (1ul << 40) && (TP_EXIT(p) == 0 || (tm.q_len == 0 && TV(&(p)->_threads)->e == TV(&(p)->_threads)->b)) && \
    (tm.c_where != C_QUEUED || tm.q_len >= 1) && (TP_EXIT(p) == 1 || tm.env_unjoined == 0))
 
 /* ---------------------------------------------------------------- closures (cocls::function<void()> as an abstract cell) */
+/* user code of a job runs on THIS thread (the closure's body or the destructors of its captures): it may stop the pool it runs on (stop() detaches
+ * this worker and resets the thread's current-pool pointer) and then destroy it (~thread_pool, e.g. the job held the last shared_ptr to the pool) */
+static void tp_user_code_may_stop_pool(cv_i8 in_dtor) {
+  if (tm.job_may_stop && nondet_bool()) { CUR = 0; if (nondet_bool()) tm.pool_dead = 1; if (in_dtor) tm.stopped_in_dtor = 1; } }
 static void tp_closure_dies(cv_i64 id, cv_i8 ran) {
   __CPROVER_assert(!(gh_lock_depth > 0), "a closure is destroyed while the pool mutex is held (its destructor resumes a coroutine / drops a promise / runs user destructors that may re-enter the pool)");
   if (ran) { TP_GH_NOWRAP(tm.n_ran); tm.n_ran++; } else { TP_GH_NOWRAP(tm.n_unrun); tm.n_unrun++; }
@@ -100,7 +116,13 @@ void qi_move(QI *dst, QI *src) {
 }
 #endif
 #ifdef CV_HAS_qi_dtor
-void qi_dtor(QI *f) { cv_i64 id = QI_ID(f); if (id != 0) tp_closure_dies(id, QI_RAN(f)); QI_SET(f, 0); }
+void qi_dtor(QI *f) {
+  cv_i64 id = QI_ID(f);
+  if (id != 0) {
+    tp_closure_dies(id, QI_RAN(f)); QI_SET(f, 0);
+    /* the closure's destructor ran the destructors of the captured user state on this thread: they may have stopped / destroyed the pool */
+    tp_user_code_may_stop_pool(1); }
+  else QI_SET(f, 0); }
 #endif
 #ifdef CV_HAS_qi_call
 void qi_call(FB *fb) {
@@ -112,7 +134,7 @@ void qi_call(FB *fb) {
   QI_RAN(f) = 1; TP_GH_NOWRAP(tm.n_invoked); tm.n_invoked++;
   if (id == gh_C) { __CPROVER_assert(tm.c_invoked == 0 && tm.c_where == C_HELD, "the tracked closure is invoked at most once, by the thread that dequeued it"); tm.c_invoked++; }
   /* the job runs: it may stop the pool it runs on (stop() detaches this worker and resets the thread's current-pool pointer) and then destroy it */
-  if (tm.job_may_stop && nondet_bool()) { CUR = 0; if (nondet_bool()) tm.pool_dead = 1; }
+  tp_user_code_may_stop_pool(0);
 }
 #endif
 
